@@ -1834,7 +1834,8 @@ class C01(Prop):
             "exactly after one (any read outside the buffer faults); panics are caught per entry point, the allocation balance of the second run of "
             "the library calls must be zero; results that may outlive their producer by type (keys of to_object_iter / into_object_iter for every carrier, "
             "borrowed strings of Deserializer::from_json / from_str for every carrier) are re-read after the producer is dropped, with an allocator that "
-            "overwrites freed memory; documents nested 100 .. 2,000,000 levels ([, {\"a\":, and mixed; closed and unclosed) with every entry "
+            "overwrites freed memory; the same inputs once more through a build with integer-overflow checks and debug assertions (what a user's debug "
+            "profile compiles); documents nested 100 .. 2,000,000 levels ([, {\"a\":, and mixed; closed and unclosed) with every entry "
             "point in its own child process (8 MiB stack, 20 s); non-trivial = every case")
     trusted = ["guard pages detect reads and writes outside the input buffer only at page granularity on the side that abuts the unmapped page (hence both "
                "placements); accesses inside the library's own heap blocks are checked by the allocator's consistency only",
@@ -1887,6 +1888,32 @@ class C01(Prop):
                         res.oracle_failures.append(dict(key=f"C01|panic|{ep}", case=case, detail=f"entry point {ep} panicked"))
             if I.get("leak") != "0":
                 res.oracle_failures.append(dict(key="C01|leak", case=case, detail=f"allocation balance of the library calls: {I.get('leak')} bytes"))
+        # the same inputs through a build with the checks of a debug profile (integer-overflow checks, debug assertions): a user's
+        # debug build must not panic either
+        dbg = build_variant(ctx, "dbg", rustflags="--cfg sonic_rs_verif -C target-cpu=native -C overflow-checks=on -C debug-assertions=on")
+        if dbg is not None:
+            flat = [c for c in cases if c.startswith("c01 ")]
+            fp = cases_path + ".flat"
+            with open(fp, "w") as f:
+                f.write("\n".join(flat) + "\n")
+            op = fp + ".dbg"
+            rc, err = ctx["run_lines"](dbg, ["c01", "run"], fp, op)
+            with open(op, errors="replace") as f:
+                outs = f.read().splitlines()
+            if rc != 0 or len(outs) != len(flat):
+                res.oracle_failures.append(dict(key="C01|process-abort(debug-checks build)", case=flat[min(len(outs), len(flat) - 1)],
+                                                detail=f"harness built with overflow checks and debug assertions died after {len(outs)} of {len(flat)} cases: {err[-300:]}"))
+            for case, line in zip(flat, outs):
+                res.evaluations += 1
+                I = ctx["parse_fields"](line)
+                res.distribution["debug-checks-build"] += 1
+                if line.startswith("PANIC"):
+                    res.oracle_failures.append(dict(key="C01|panic-outside-entry(debug-checks build)", case=case, detail=line[:200]))
+                    continue
+                if I.get("panics") not in ("-", None):
+                    for ep in I.get("panics", "").split(","):
+                        res.oracle_failures.append(dict(key=f"C01|panic(debug-checks build)|{ep}", case=case,
+                                                        detail=f"entry point {ep} panicked in a build with overflow checks and debug assertions"))
 
 
 REGISTRY = {"C01": C01(), "C17": C17(), "C19": C19(), "C04": C04(), "C11": C11(), "C13": C13(), "C06": C06(), "C15": C15(), "C16": C16(), "C05": C05(), "C18": C18(), "C08": C08(), "C07": C07(), "C03": C03(), "C02": C02(), "C20": C20(), "C09": C09(), "C10": C10(), "C14": C14(), "C12": C12()}
